@@ -4,6 +4,8 @@ ONLY property theorems and non-vacuity examples live here; helper lemmas are in 
 -/
 import AskarModel.Model.Wql
 import AskarModel.Lemmas.Wql
+import AskarModel.Model.WqlJson
+import AskarModel.Lemmas.WqlJson
 
 namespace Askar.Wql
 
@@ -81,5 +83,139 @@ example : holds (fun _ _ => false) [⟨false, "a", "7"⟩, ⟨true, "n", "5"⟩]
 example : holds (fun _ _ => false) [⟨false, "a", "1"⟩, ⟨true, "n", "5"⟩] exQ = false := by
   simp only [exQ, holds, holdsP, holdsAll, holdsAny, atomCmp, atomIn, atomExist, Lemmas.utf8_eq]
   decide
+
+/-! ## The JSON form (`wql/query.rs`, `mod serde_support`; model in Model/WqlJson.lean)
+
+"A filter serialised to JSON and parsed back selects the same records"; "JSON round-trip excludes
+the empty `$or`, which the JSON form cannot express". -/
+
+/-- Round trip: for every filter the JSON form can express, `Deserialize` applied to `to_value`
+    succeeds and returns the explicit normal form `normJ` (the filter itself, except that an empty
+    `$exist` list has become the empty `$and`). -/
+theorem json_roundtrip (q : Query String) (h : q.jsonExpressible) :
+    parseQuery (toValue q) = .ok (normJ q) :=
+  Lemmas.json_roundtrip_names q ((Lemmas.jsonExpressible_iff q).mp h).2
+
+/-- The same under the weaker hypothesis that actually matters for *parsing back*: no compared
+    tag name is a reserved key.  (With an empty `$or` inside, `normJ` shows what comes back.) -/
+theorem json_roundtrip_names (q : Query String) (h : q.namesUnreserved) :
+    parseQuery (toValue q) = .ok (normJ q) :=
+  Lemmas.json_roundtrip_names q h
+
+/-- Through the text (`TagFilter::to_string` then `TagFilter::from_str`): the same, as long as the
+    JSON nesting stays within what serde_json's parser accepts (127 levels). -/
+theorem json_text_roundtrip (q : Query String) (h : q.jsonExpressible)
+    (hd : (toValue q).depth ≤ jsonDepthLimit) : jsonRoute q = .ok (normJ q) :=
+  Lemmas.jsonRoute_roundtrip q ((Lemmas.jsonExpressible_iff q).mp h).2 hd
+
+/-- The parsed-back filter has the same reference meaning: on every record, for every LIKE
+    relation.  Domain: C04's (no nested empty list), as for `encode_correct`. -/
+theorem json_roundtrip_same_records (like : Bytes → Bytes → Bool) (q : Query String)
+    (h : q.jsonExpressible) (hd : (tagQuery q).InDomain) (tags : List Tag) :
+    holds like tags (tagQuery (normJ q)) = holds like tags (tagQuery q) :=
+  Lemmas.json_roundtrip_same_records like q ((Lemmas.jsonExpressible_iff q).mp h).1 hd tags
+
+/-- Stronger, and about the code rather than the reference: the parsed-back filter is encoded to
+    the very same SQL clause and arguments, so it selects the same rows whatever the store holds. -/
+theorem json_roundtrip_same_sql (E : TagCrypto) (q : Query String)
+    (h : q.jsonExpressible) (hd : (tagQuery q).InDomain) :
+    encodeQuery E (tagQuery (normJ q)) = encodeQuery E (tagQuery q) :=
+  Lemmas.json_roundtrip_same_sql E q ((Lemmas.jsonExpressible_iff q).mp h).1 hd
+
+/-- Both together, in the property's words: serialise, parse back, and the result exists and
+    selects the same records. -/
+theorem json_roundtrip_selects_same (like : Bytes → Bytes → Bool) (q : Query String)
+    (h : q.jsonExpressible) (hd : (tagQuery q).InDomain) :
+    ∃ q', parseQuery (toValue q) = .ok q' ∧
+      ∀ tags, holds like tags (tagQuery q') = holds like tags (tagQuery q) :=
+  ⟨normJ q, json_roundtrip q h, json_roundtrip_same_records like q h hd⟩
+
+/-- `to_value` only builds objects that are already in `BTreeMap` order (at most one member each),
+    so the parser model's assumption holds on everything the round trip feeds it. -/
+theorem toValue_wf (q : Query String) : (toValue q).wf = true := Lemmas.toValue_wf q
+
+/-- The documented exclusion, stated outright: the empty `$or` (selects nothing) is written as `{}`,
+    which reads back as the empty `$and` (selects everything). -/
+theorem json_or_empty_not_expressible : parseQuery (toValue (.or [])) = .ok (.and []) := rfl
+
+/-- ... and the two really differ: on every record. -/
+theorem json_or_empty_differs (like : Bytes → Bytes → Bool) (tags : List Tag) :
+    holds like tags (tagQuery (.or [])) = false ∧ holds like tags (tagQuery (.and [])) = true :=
+  ⟨rfl, rfl⟩
+
+/-- "Cannot express", in full: NO JSON value whatsoever parses to a filter containing an empty
+    `$or` (or an empty `$exist`) at any depth. -/
+theorem json_cannot_express_empty_or (j : J) (q : Query String) (h : parseQuery j = .ok q) :
+    q.noEmptyOr = true ∧ noEmptyOrExist q = true :=
+  ⟨Lemmas.noEmptyOr_of_noEmptyOrExist q (Lemmas.parseQuery_noEmpty j q h), Lemmas.parseQuery_noEmpty j q h⟩
+
+/-- The other exclusion: a tag name equal to a reserved key is read as that operator. -/
+theorem json_reserved_name_misparsed :
+    parseQuery (toValue (.cmp .eq "$exist" "x")) = .ok (.exist ["x"]) := rfl
+
+example : parseQuery (toValue (.cmp .neq "$not" "x")) = .ok (.not (.cmp .eq "$neq" "x")) := rfl
+example : parseQuery (toValue (.cmp .eq "$and" "x")) = .error "$and must be array of JSON objects" := rfl
+example : parseQuery (toValue (.isIn "$not" ["x"])) = .error "Unsupported value" := rfl
+/-- names inside `$exist` are array elements, not keys: reserved words are fine there -/
+example : parseQuery (toValue (.exist ["$exist", "$and"])) = .ok (.exist ["$exist", "$and"]) := rfl
+/-- the empty name and the empty `$in` list are expressible -/
+example : parseQuery (toValue (.cmp .eq "" "x")) = .ok (.cmp .eq "" "x") := rfl
+example : parseQuery (toValue (.isIn "a" [])) = .ok (.isIn "a" []) := rfl
+
+/-- Outside the domain (an empty `$exist` under `$not`) the round trip does change the selection:
+    `Not (Exist [])` selects every record, its parsed-back form `Not (And [])` none.  This is why
+    `json_roundtrip_same_records` carries the domain hypothesis. -/
+example : (Query.not (.exist [])).jsonExpressible = true
+    ∧ parseQuery (toValue (.not (.exist []))) = .ok (.not (.and []))
+    ∧ holds (fun _ _ => false) [] (tagQuery (.not (.exist []))) = true
+    ∧ holds (fun _ _ => false) [] (tagQuery (.not (.and []))) = false := ⟨rfl, rfl, rfl, rfl⟩
+
+/-! Parser-side behaviour the property text relies on (each by evaluation). -/
+/-- an object with no / several operators is their `$and`; with exactly one it is that operator -/
+example : parseQuery (.obj []) = .ok (.and []) := rfl
+example : parseQuery (.obj [("a", .str "1"), ("b", .str "2")]) = .ok (.and [.cmp .eq "a" "1", .cmp .eq "b" "2"]) := rfl
+example : parseQuery (.obj [("a", .str "1")]) = .ok (.cmp .eq "a" "1") := rfl
+/-- empty `$and` / `$or` / `$exist` arrays contribute nothing -/
+example : parseQuery (.obj [("$and", .arr []), ("$exist", .arr []), ("$or", .arr []), ("a", .str "1")])
+    = .ok (.cmp .eq "a" "1") := rfl
+/-- `$exist` takes a string or an array of strings -/
+example : parseQuery (.obj [("$exist", .str "a")]) = .ok (.exist ["a"]) := rfl
+example : parseQuery (.obj [("$exist", .arr [.str "a", .num 1])])
+    = .error "$exist must be used with a string or array of strings" := rfl
+/-- the legacy array form: `$or` of the objects, `null` members and empty objects dropped -/
+example : parseQuery (.arr [.obj [("a", .str "1"), ("b", .null)], .obj [], .obj [("c", .str "2")]])
+    = .ok (.or [.cmp .eq "a" "1", .cmp .eq "c" "2"]) := rfl
+example : parseQuery (.arr []) = .ok (.and []) := rfl
+example : parseQuery (.arr [.str "a"]) = .error "Restriction is invalid" := rfl
+example : parseQuery (.str "a") = .error "Restriction must be either object or array" := rfl
+example : parseQuery (.obj [("a", .obj [("$neq", .str "1"), ("$gt", .str "0")])])
+    = .error "value must be JSON object of length 1" := rfl
+example : parseQuery (.obj [("a", .obj [("$regex", .str "1")])]) = .error "Unknown operator" := rfl
+
+/-! Non-vacuity of the round-trip theorems: a concrete filter using every constructor, both tag
+    kinds, a multi-valued `$in` and a multi-name `$exist` satisfies both hypotheses, is not changed
+    by `normJ`, and is selected on one record and rejected on another. -/
+def exJ : Query String := .and [.not (.or [.cmp .eq "a" "1", .isIn "~b" ["x", "y"]]),
+    .cmp .gte "~n" "5", .exist ["a", "~n"], .cmp .like "~n" "5%"]
+example : exJ.jsonExpressible = true := by decide
+example : (tagQuery exJ).InDomain := by decide
+example : (toValue exJ).depth ≤ jsonDepthLimit := by decide
+example : parseQuery (toValue exJ) = .ok exJ := rfl
+example : holds (fun _ _ => true) [⟨false, "a", "7"⟩, ⟨true, "n", "5"⟩] (tagQuery exJ) = true := by
+  simp only [exJ, tagQuery, Query.mapNames, mapNamesList, splitName, holds, holdsP, holdsAll, holdsAny,
+    atomCmp, atomIn, atomExist, Lemmas.utf8_eq]
+  decide
+example : holds (fun _ _ => true) [⟨false, "a", "1"⟩, ⟨true, "n", "5"⟩] (tagQuery exJ) = false := by
+  simp only [exJ, tagQuery, Query.mapNames, mapNamesList, splitName, holds, holdsP, holdsAll, holdsAny,
+    atomCmp, atomIn, atomExist, Lemmas.utf8_eq]
+  decide
+/-- the root `Exist []` is expressible, in the domain, and genuinely rewritten -/
+example : (Query.exist []).jsonExpressible = true ∧ (tagQuery (.exist [])).InDomain
+    ∧ parseQuery (toValue (.exist [])) = .ok (.and []) := ⟨rfl, by decide, rfl⟩
+/-- `J.normObj`: members in text order ↦ map order (sorted by key bytes, last duplicate wins) -/
+example : J.normObj [("b", .str "1"), ("a", .str "2"), ("b", .str "3")] = [("a", .str "2"), ("b", .str "3")] := by
+  have h : J.keyLt "a" "b" = true := by simp only [J.keyLt, Lemmas.utf8_eq]; decide
+  have h' : J.keyLt "b" "a" = false := by simp only [J.keyLt, Lemmas.utf8_eq]; decide
+  simp [J.normObj, J.insertKV, h, h']
 
 end Askar.Wql
